@@ -437,6 +437,7 @@ public:
     } else if (auto *E = dyn_cast<CXXConstructExpr>(S)) {
       J.attribute("k", "construct");
       J.attribute("t", typeStr(E->getType(), Ctx));
+      J.attribute("tc", typeStr(E->getType().getCanonicalType(), Ctx));
       if (const CXXConstructorDecl *CD = E->getConstructor()) {
         calleeInfo(CD);
         if (CD->isCopyConstructor())
